@@ -8,6 +8,11 @@
  * -DVF_BN_SAFETY_ONLY compiles the value part out (used by the unbounded jobs only: there
  * VF_DIGITS_VAL, a BN_MAX_DIGITS-term expression, would not describe the whole array).
  *
+ * The value part speaks about entry values through VF_DIGITS_OLD, which snapshots a[0] even for
+ * an empty array: value contracts therefore require non-NULL arrays with at least one readable
+ * digit (every in-tree call site passes bn->num or &bn->num[j], j < count); the NULL / empty-array
+ * branches are covered by the safety jobs.
+ *
  * Preconditions that are not checked by the functions themselves are the ones every in-tree
  * call site establishes (listed at each contract).
  */
@@ -33,9 +38,6 @@
 #define VF_VALUE(c)	(c)
 #endif
 
-/* value of an optional array inside __CPROVER_old(): history variables are evaluated
- * unconditionally at function entry, so the NULL case must be guarded inside */
-#define VF_DS_VAL0(a, n)	(((a) != NULL) ? VF_DIGITS_VAL(a, n) : (vf_bnv_t)0)
 #define VF_DS_SZ(n)		((n) * sizeof(bn_digit_t))
 #define VF_DS_RW(a, n)		((n) <= VF_BN_MAXCOUNT && __CPROVER_rw_ok((a), VF_DS_SZ(n)))
 #define VF_DS_R(a, n)		((n) <= VF_BN_MAXCOUNT && __CPROVER_r_ok((a), VF_DS_SZ(n)))
@@ -82,21 +84,23 @@ __CPROVER_ensures(VF_VALUE((a != NULL && count != 0) ==> VF_DIGITS_VAL(a, count)
  * (bits = ctz(d) < W).  Outside it the memmove length count*size - bits/8 underflows (F2). */
 static inline void
 bn_digits_l_shift(bn_digit_t *a, size_t count, size_t bits)
+__CPROVER_requires(VF_VALUE(a != NULL && __CPROVER_r_ok(a, sizeof(bn_digit_t))))
 __CPROVER_requires(a == NULL || count == 0 || VF_DS_RW(a, count))
 __CPROVER_requires(count == 0 || bits < count * BN_DIGIT_BITS)
 __CPROVER_assigns(a != NULL && count != 0: __CPROVER_object_upto(a, VF_DS_SZ(count)))
 __CPROVER_ensures(VF_VALUE((a != NULL && count != 0) ==> VF_DIGITS_VAL(a, count) ==
-    ((__CPROVER_old(VF_DS_VAL0(a, count)) << bits) & (VF_POW2W(count) - 1))))
+    ((VF_DIGITS_OLD(a, count) << bits) & (VF_POW2W(count) - 1))))
 ;
 /* a = a >> bits.  Domain: bits < W*count (every call site: bn_r_shift with bits < W*digits);
  * outside it `count - 1` underflows in the loop bound (F2). */
 static inline void
 bn_digits_r_shift(bn_digit_t *a, size_t count, size_t bits)
+__CPROVER_requires(VF_VALUE(a != NULL && __CPROVER_r_ok(a, sizeof(bn_digit_t))))
 __CPROVER_requires(a == NULL || count == 0 || VF_DS_RW(a, count))
 __CPROVER_requires(count == 0 || bits < count * BN_DIGIT_BITS)
 __CPROVER_assigns(a != NULL && count != 0: __CPROVER_object_upto(a, VF_DS_SZ(count)))
 __CPROVER_ensures(VF_VALUE((a != NULL && count != 0) ==> VF_DIGITS_VAL(a, count) ==
-    (__CPROVER_old(VF_DS_VAL0(a, count)) >> bits)))
+    (VF_DIGITS_OLD(a, count) >> bits)))
 ;
 
 /* a += b; carry out of the count digits.  Call sites pass count >= 1. */
@@ -108,15 +112,16 @@ __CPROVER_assigns(__CPROVER_object_upto(a, VF_DS_SZ(count)))
 __CPROVER_assigns(carry != NULL: *carry)
 __CPROVER_ensures(carry != NULL ==> (*carry == 0 || *carry == 1))
 __CPROVER_ensures(VF_VALUE(carry != NULL ==>
-    VF_DIGITS_VAL(a, count) + (*carry ? VF_POW2W(count) : (vf_bnv_t)0) == __CPROVER_old(VF_DIGITS_VAL(a, count)) + b))
+    VF_DIGITS_VAL(a, count) + (*carry ? VF_POW2W(count) : (vf_bnv_t)0) == VF_DIGITS_OLD(a, count) + b))
 __CPROVER_ensures(VF_VALUE(VF_DIGITS_VAL(a, count) ==
-    ((__CPROVER_old(VF_DIGITS_VAL(a, count)) + b) & (VF_POW2W(count) - 1))))
+    ((VF_DIGITS_OLD(a, count) + b) & (VF_POW2W(count) - 1))))
 ;
 
 /* a += b (b_count digits of b); EOVERFLOW iff b does not fit a; carry out of a_count digits.
  * a == b (same array) is permitted. */
 static inline int
 bn_digits_add(bn_digit_t *a, size_t a_count, bn_digit_t *b, size_t b_count, bn_digit_t *carry)
+__CPROVER_requires(VF_VALUE(a != NULL && b != NULL && __CPROVER_r_ok(a, sizeof(bn_digit_t)) && __CPROVER_r_ok(b, sizeof(bn_digit_t))))
 __CPROVER_requires(a == NULL || VF_DS_RW(a, a_count))
 __CPROVER_requires(b == NULL || VF_DS_R(b, b_count))
 __CPROVER_requires(a == NULL || b == NULL || a == b || VF_DS_DISJOINT(a, a_count, b, b_count))
@@ -130,9 +135,9 @@ __CPROVER_ensures(carry != NULL ==> (*carry == 0 || *carry == 1))
 __CPROVER_ensures((carry != NULL && __CPROVER_return_value != 0) ==> *carry == 0)
 __CPROVER_ensures(VF_VALUE((__CPROVER_return_value == 0 && carry != NULL) ==>
     VF_DIGITS_VAL(a, a_count) + (*carry ? VF_POW2W(a_count) : (vf_bnv_t)0) ==
-    __CPROVER_old(VF_DS_VAL0(a, a_count)) + __CPROVER_old(VF_DS_VAL0(b, b_count))))
+    VF_DIGITS_OLD(a, a_count) + VF_DIGITS_OLD(b, b_count)))
 __CPROVER_ensures(VF_VALUE(__CPROVER_return_value == 0 ==> VF_DIGITS_VAL(a, a_count) ==
-    ((__CPROVER_old(VF_DS_VAL0(a, a_count)) + __CPROVER_old(VF_DS_VAL0(b, b_count))) & (VF_POW2W(a_count) - 1))))
+    ((VF_DIGITS_OLD(a, a_count) + VF_DIGITS_OLD(b, b_count)) & (VF_POW2W(a_count) - 1))))
 ;
 
 /* a -= b; borrow out of the count digits.  Call sites pass count >= 1. */
@@ -144,9 +149,9 @@ __CPROVER_assigns(__CPROVER_object_upto(a, VF_DS_SZ(count)))
 __CPROVER_assigns(borrow != NULL: *borrow)
 __CPROVER_ensures(borrow != NULL ==> (*borrow == 0 || *borrow == 1))
 __CPROVER_ensures(VF_VALUE(borrow != NULL ==>
-    VF_DIGITS_VAL(a, count) + b == __CPROVER_old(VF_DIGITS_VAL(a, count)) + (*borrow ? VF_POW2W(count) : (vf_bnv_t)0)))
+    VF_DIGITS_VAL(a, count) + b == VF_DIGITS_OLD(a, count) + (*borrow ? VF_POW2W(count) : (vf_bnv_t)0)))
 __CPROVER_ensures(VF_VALUE(VF_DIGITS_VAL(a, count) ==
-    ((__CPROVER_old(VF_DIGITS_VAL(a, count)) + VF_POW2W(count) - b) & (VF_POW2W(count) - 1))))
+    ((VF_DIGITS_OLD(a, count) + VF_POW2W(count) - b) & (VF_POW2W(count) - 1))))
 ;
 
 /* a -= b, internal: a_count >= b_count (documented: "set to non zero digits count"; call sites:
@@ -154,6 +159,7 @@ __CPROVER_ensures(VF_VALUE(VF_DIGITS_VAL(a, count) ==
  * bn_digits_sub_digit_mult__int).  *borrow is left untouched when b_count == 0 or a == b. */
 static inline void
 bn_digits_sub__int(bn_digit_t *a, size_t a_count, bn_digit_t *b, size_t b_count, bn_digit_t *borrow)
+__CPROVER_requires(VF_VALUE(__CPROVER_r_ok(a, sizeof(bn_digit_t)) && __CPROVER_r_ok(b, sizeof(bn_digit_t))))
 __CPROVER_requires(a_count >= b_count)
 __CPROVER_requires(b_count == 0 || (VF_DS_RW(a, a_count) && VF_DS_R(b, b_count)))
 __CPROVER_requires(b_count == 0 || a == b || VF_DS_DISJOINT(a, a_count, b, b_count))
@@ -163,15 +169,16 @@ __CPROVER_assigns(b_count != 0: __CPROVER_object_upto(a, VF_DS_SZ(a_count)))
 __CPROVER_assigns(borrow != NULL && b_count != 0 && a != b: *borrow)
 __CPROVER_ensures((borrow != NULL && b_count != 0 && a != b) ==> (*borrow == 0 || *borrow == 1))
 __CPROVER_ensures(VF_VALUE((borrow != NULL && b_count != 0 && a != b) ==>
-    VF_DIGITS_VAL(a, a_count) + __CPROVER_old(VF_DIGITS_VAL(b, b_count)) ==
-    __CPROVER_old(VF_DIGITS_VAL(a, a_count)) + (*borrow ? VF_POW2W(a_count) : (vf_bnv_t)0)))
+    VF_DIGITS_VAL(a, a_count) + VF_DIGITS_OLD(b, b_count) ==
+    VF_DIGITS_OLD(a, a_count) + (*borrow ? VF_POW2W(a_count) : (vf_bnv_t)0)))
 __CPROVER_ensures(VF_VALUE(b_count != 0 ==> VF_DIGITS_VAL(a, a_count) ==
-    ((__CPROVER_old(VF_DIGITS_VAL(a, a_count)) + VF_POW2W(a_count) - __CPROVER_old(VF_DIGITS_VAL(b, b_count))) &
+    ((VF_DIGITS_OLD(a, a_count) + VF_POW2W(a_count) - VF_DIGITS_OLD(b, b_count)) &
      (VF_POW2W(a_count) - 1))))
 ;
 
 static inline int
 bn_digits_sub(bn_digit_t *a, size_t a_count, bn_digit_t *b, size_t b_count, bn_digit_t *borrow)
+__CPROVER_requires(VF_VALUE(a != NULL && b != NULL && __CPROVER_r_ok(a, sizeof(bn_digit_t)) && __CPROVER_r_ok(b, sizeof(bn_digit_t))))
 __CPROVER_requires(a == NULL || VF_DS_RW(a, a_count))
 __CPROVER_requires(b == NULL || VF_DS_R(b, b_count))
 __CPROVER_requires(a == NULL || b == NULL || a == b || VF_DS_DISJOINT(a, a_count, b, b_count))
@@ -183,10 +190,10 @@ __CPROVER_ensures(__CPROVER_return_value == ((a == NULL || b == NULL) ? EINVAL :
     ((b_count != 0 && a_count < b_count) ? EOVERFLOW : 0)))
 __CPROVER_ensures((borrow != NULL && __CPROVER_return_value == 0) ==> (*borrow == 0 || *borrow == 1))
 __CPROVER_ensures(VF_VALUE((__CPROVER_return_value == 0 && borrow != NULL) ==>
-    VF_DIGITS_VAL(a, a_count) + __CPROVER_old(VF_DS_VAL0(b, b_count)) ==
-    __CPROVER_old(VF_DS_VAL0(a, a_count)) + (*borrow ? VF_POW2W(a_count) : (vf_bnv_t)0)))
+    VF_DIGITS_VAL(a, a_count) + VF_DIGITS_OLD(b, b_count) ==
+    VF_DIGITS_OLD(a, a_count) + (*borrow ? VF_POW2W(a_count) : (vf_bnv_t)0)))
 __CPROVER_ensures(VF_VALUE(__CPROVER_return_value == 0 ==> VF_DIGITS_VAL(a, a_count) ==
-    ((__CPROVER_old(VF_DS_VAL0(a, a_count)) + VF_POW2W(a_count) - __CPROVER_old(VF_DS_VAL0(b, b_count))) &
+    ((VF_DIGITS_OLD(a, a_count) + VF_POW2W(a_count) - VF_DIGITS_OLD(b, b_count)) &
      (VF_POW2W(a_count) - 1))))
 ;
 
